@@ -1,6 +1,89 @@
-(** Entry points for C05 (stub: replaced by the property's own entry file). *)
-From Coq Require Import ZArith List.
-From GV Require Import Base.Val.
+(** Entry points for C05 (bulk / parallel distance computations).
+    Wire conventions: container 0 = SignatureArray, 1 = HDF5Signatures, 2 = SignatureList,
+    3 = plain list; dtype = (kind itemsize) as in E02; optional values () / (x); a caller-supplied
+    buffer = (shape is_float32 cells) with cells as binary32 bit patterns (rows of cells for 2-D);
+    results (0 payload) / (1 code) with code 3 = ValueError, 6 = IndexError, 7 = AttributeError, 10 + c = kernel
+    failure c (Entry/Codec.v [err_code]). *)
+From Coq Require Import ZArith List Bool.
+From GV Require Import Base.Val Base.CSem Base.F32 Gen.MetricPyx Spec.Jaccard Spec.JaccardF
+  Spec.C05 Model.MetricPy Model.C05 Entry.Codec.
+Import ListNotations.
 Open Scope Z_scope.
 
-Definition dispatch (op : Z) (a : val) : val := vbad.
+Definition perr_code (e : perr) : Z :=
+  match e with PValueError => 3 | PIndexError => 6 | PAttributeError => 7 | PKernel e => 10 + err_code e end.
+Definition vpres {A} (f : A -> val) (r : pres A) : val :=
+  match r with POk a => vok (f a) | PErr e => verr (perr_code e) end.
+
+Definition to_container (v : val) : container :=
+  match to_Z v with 0 => CArray | 1 => CHdf5 | 2 => CSigList | _ => CPyList end.
+Definition to_dt (v : val) : Z * Z :=
+  match v with VL [VI k; VI s] => (k, s) | _ => (2, 0) end.
+Definition to_sigs (v : val) : sigs := map to_Zs (to_list v).
+Definition to_cells (v : val) : list f32 := map (fun x => f32_of_bits (to_Z x)) (to_list v).
+Definition to_rows (v : val) : list (list f32) := map to_cells (to_list v).
+Definition to_obuf {C} (f : val -> C) (v : val) : option (obuf C) :=
+  match v with
+  | VL [VL [sh; fl; cells]] => Some (to_Zs sh, to_bool fl, f cells)
+  | _ => None
+  end.
+Definition vcells (l : list f32) : val := VL (map vf32 l).
+Definition vrows (l : list (list f32)) : val := VL (map vcells l).
+Definition vslices (l : list (Z * Z)) : val := VL (map (fun p => VL [VI (fst p); VI (snd p)]) l).
+
+(** ops 3, 4, 5 run the repaired wrapping of plain lists (repo_fixes/C05.diff); 23, 24, 25 the code as found *)
+Definition dispatch (op0 : Z) (a : val) : val :=
+  let fx := op0 <? 20 in
+  let op := if fx then op0 else op0 - 20 in
+  match op with
+  (* 1: chunk_slices (n size) *)
+  | 1 => match a with VL [VI n; VI s] => vpres vslices (chunk_slices n s) | _ => vbad end
+  (* 2: jaccarddist_array (container dq dr query refs out) *)
+  | 2 => match a with
+         | VL [c; dq; dr; q; refs; out] =>
+             vpres vcells (jd_array (to_container c) (to_dt dq) (to_dt dr) (to_Zs q) (to_sigs refs)
+                             (to_obuf to_cells out))
+         | _ => vbad end
+  (* 3: jaccarddist_matrix (container dq dr queries refs ref_indices out chunksize) *)
+  | 3 => match a with
+         | VL [c; dq; dr; qs; refs; ri; out; cs] =>
+             vpres vrows (jd_matrix fx (to_container c) (to_dt dq) (to_dt dr) (to_sigs qs) (to_sigs refs)
+                            (to_opt to_Zs ri) (to_obuf to_rows out) (to_opt to_Z cs))
+         | _ => vbad end
+  (* 4: jaccarddist_pairwise, square form (container dtype sigs indices out) *)
+  | 4 => match a with
+         | VL [c; d; ss; idx; out] =>
+             vpres vrows (jd_pairwise_square fx (to_container c) (to_dt d) (to_sigs ss) (to_opt to_Zs idx)
+                            (to_obuf to_rows out))
+         | _ => vbad end
+  (* 5: jaccarddist_pairwise, condensed form *)
+  | 5 => match a with
+         | VL [c; d; ss; idx; out] =>
+             vpres vcells (jd_pairwise_flat fx (to_container c) (to_dt d) (to_sigs ss) (to_opt to_Zs idx)
+                             (to_obuf to_cells out))
+         | _ => vbad end
+  (* 6: generated prange loop run in iteration order pi: (pi query values bounds out) *)
+  | 6 => match a with
+         | VL [pi; q; vals; bnds; out] =>
+             let q := to_Zs q in let vals := to_Zs vals in
+             vres vcells (_jaccarddist_parallel_order (length q + length vals) (to_Zs pi) q vals
+                            (to_Zs bnds) (to_cells out))
+         | _ => vbad end
+  (* 7: generated prange loop, sequential: (query values bounds out) *)
+  | 7 => match a with
+         | VL [q; vals; bnds; out] =>
+             let q := to_Zs q in let vals := to_Zs vals in
+             vres vcells (_jaccarddist_parallel (length q + length vals) q vals (to_Zs bnds) (to_cells out))
+         | _ => vbad end
+  (* 8: spec: matrix of pair distances (queries refs) *)
+  | 8 => match a with VL [qs; refs] => vrows (dist_matrix (to_sigs qs) (to_sigs refs)) | _ => vbad end
+  (* 9: spec: condensed all-pairs form *)
+  | 9 => vcells (dist_condensed (to_sigs a))
+  (* 10: spec: selection (list idxs) -> option *)
+  | 10 => match a with VL [l; idx] => vopt (fun l => VL (map vZs l)) (select (to_sigs l) (to_Zs idx)) | _ => vbad end
+  (* 11: concatenated representation (values bounds) *)
+  | 11 => let r := to_sigs a in VL [vZs (cat_values r); vZs (cat_bounds r)]
+  (* 12: condensed offset (n i j) *)
+  | 12 => match a with VL [VI n; VI i; VI j] => VI (condensed_offset n i j) | _ => vbad end
+  | _ => vbad
+  end.
